@@ -12,6 +12,7 @@ import (
 	"io"
 	"math"
 	"math/bits"
+	"runtime"
 	"slices"
 	"strconv"
 	"time"
@@ -43,6 +44,8 @@ type HUnixFS struct {
 	HashType   *uint64  `json:"hashtype"`
 	Fanout     *uint64  `json:"fanout"`
 	Mode       *uint32  `json:"mode"`
+	MtimeSec   *int64   `json:"mtimesec"` // a modification time (seconds; nanoseconds when MtimeNs is set)
+	MtimeNs    *uint32  `json:"mtimens"`
 	// WideType: a DataType varint beyond 32 bits (no generated enum type can hold it): written by hand
 	WideType *uint64 `json:"widetype"`
 }
@@ -69,9 +72,11 @@ type HostileCase struct {
 	Blocks []HBlock `json:"blocks"` // children before parents
 	Root   string   `json:"root"`
 	Open   string   `json:"open"`
-	Class  string   `json:"class"` // C14: input class of the root
-	NonPB  string   `json:"nonpb"` // C14: a non-dag-pb input instead of blocks
-	Names  []string `json:"names"` // keys to look up
+	// LSReify: the link system carries NodeReifier = unixfsnode.Reify (the root is still handed over as loaded)
+	LSReify bool     `json:"lsreify"`
+	Class   string   `json:"class"` // C14: input class of the root
+	NonPB   string   `json:"nonpb"` // C14: a non-dag-pb input instead of blocks
+	Names   []string `json:"names"` // keys to look up
 	// Ops restricts the operations exercised (empty = all): a DAG whose shards share children is small as a
 	// block set but astronomically large as a tree, so only the operations that are linear in the block set
 	// (Length, which is memoised per shard, and lookups) can be demanded to finish
@@ -100,6 +105,9 @@ func (u *HUnixFS) encode() []byte {
 	d.HashType = u.HashType
 	d.Fanout = u.Fanout
 	d.Mode = u.Mode
+	if u.MtimeSec != nil {
+		d.Mtime = &pb.IPFSTimestamp{Seconds: u.MtimeSec, Nanos: u.MtimeNs}
+	}
 	if u.WideType != nil {
 		t := pb.Data_Raw
 		d.Type = &t
@@ -765,7 +773,13 @@ func runHostileCase(hc *HostileCase, tr *Tr) error {
 	if hmDigits == nil {
 		hmDigits = [][]int{}
 	}
+	var ms0, ms1 runtime.MemStats
+	runtime.ReadMemStats(&ms0)
 	out, _, info := timed(func() (string, int, string) {
+		if hc.LSReify {
+			// the link system reifies what it loads (as fetchers and gateways configure it): child blocks arrive reified
+			ls.NodeReifier = unixfsnode.Reify
+		}
 		if hc.Open == "preload" {
 			node, err = ls.KnownReifiers["unixfs-preload"](lctx, rootNode, ls)
 		} else {
@@ -773,6 +787,8 @@ func runHostileCase(hc *HostileCase, tr *Tr) error {
 		}
 		return errOut(err), 0, ""
 	})
+	runtime.ReadMemStats(&ms1)
+	allocKiB := int((ms1.TotalAlloc - ms0.TotalAlloc) >> 10)
 	res := "error"
 	subSame, reenc, kind := false, false, "none"
 	if out == "value" && node != nil {
@@ -817,7 +833,11 @@ func runHostileCase(hc *HostileCase, tr *Tr) error {
 			adlRec, res = M{}, "timeout"
 		}
 	}
-	tr.Emit(M{"ev": "reify", "adl": adlRec, "cls": hc.Class, "variant": hc.Open, "res": res, "kind": kind, "subSame": subSame, "reenc": reenc,
+	storedKiB := 0
+	for _, hb := range hc.Blocks {
+		storedKiB += len(hb.Raw) >> 10
+	}
+	tr.Emit(M{"ev": "reify", "allocKiB": min(allocKiB, 1<<30), "storedKiB": storedKiB, "adl": adlRec, "cls": hc.Class, "variant": hc.Open, "res": res, "kind": kind, "subSame": subSame, "reenc": reenc,
 		"ctor": ctorOrEmpty(ctor), "H": hmH, "hroot": hmRoot, "hdigits": hmDigits, "FH": fhH, "fhroot": fhRoot, "members": rootMembers(hc),
 		"e": res, "info": info, "isADL": subSame || reenc || res == "file" || res == "dir" || res == "hamtdir" || res == "linkmap"})
 	if out != "value" || node == nil || res == "timeout" {
@@ -906,6 +926,13 @@ func init() {
 				c.ID = c.ID + "-" + open
 				if err := runHostileCase(&c, tr); err != nil {
 					return fmt.Errorf("%s: %w", c.ID, err)
+				}
+				if *what == "reify" {
+					c.LSReify = true
+					c.ID += "-lsreify"
+					if err := runHostileCase(&c, tr); err != nil {
+						return fmt.Errorf("%s: %w", c.ID, err)
+					}
 				}
 			}
 		}
